@@ -49,6 +49,38 @@ contract Everything {
 }
 """
 
+# findings that nest and span several lines: several findings of one pattern in one file whose locations enclose
+# each other, start on different lines, and are followed by further findings of the same pattern
+CONTRACT_NESTED = """pragma solidity 0.8.19;
+interface IERC20 { function transfer(address to, uint256 v) external returns (bool); function approve(address s, uint256 v) external returns (bool); }
+contract FeeMath {
+    IERC20 tokenA;
+    IERC20 tokenB;
+    function quote(uint256 amount, uint256 rate, bool first) external returns (uint256 r) {
+        r = 8 *
+            (amount *
+                4 + (rate /
+                    2));
+        r = (amount / rate) * fee({
+            amount: amount,
+            bps: rate
+        }) * 16;
+        (first ? tokenA : tokenB)
+            .transfer(msg.sender, r);
+        tokenA.approve(
+            msg.sender,
+            amount / 4 * rate
+        );
+        tokenB.transfer(msg.sender, r / 2);
+        require(amount >=
+            1 && rate <=
+            10, "bounds");
+        return r * 2;
+    }
+    function fee(uint256 amount, uint256 bps) internal pure returns (uint256) { return amount * bps / 10000 * 2; }
+}
+"""
+
 CONTRACT_PRE = """pragma solidity 0.7.6;
 contract Old {
     using SafeMath for uint256;
@@ -75,7 +107,7 @@ def make_fixture(root, rnd, names=None):
     os.makedirs(root, exist_ok=True)
     items = [("Everything.sol", CONTRACT_ALL), ("Old.sol", CONTRACT_PRE), ("sub/Inner.sol", CONTRACT_ALL.replace("Everything", "Inner")),
              ("sub/deep/Leaf.sol", CONTRACT_PRE.replace("Old", "Leaf")), ("Skip.t.sol", "this is not solidity"), ("notes.txt", "\xff\xfe garbage"),
-             ("sub/x.t.solver.sol", CONTRACT_PRE.replace("Old", "Solver"))]
+             ("sub/x.t.solver.sol", CONTRACT_PRE.replace("Old", "Solver")), ("Nested.sol", CONTRACT_NESTED), ("sub/deep/Nested2.sol", CONTRACT_NESTED.replace("FeeMath", "FeeMath2"))]
     if names:
         items = [i for i in items if i[0] in names]
     rnd.shuffle(items)
@@ -135,7 +167,11 @@ def c14_cases(ctx, binary, root, rnd, n):
     for k in range(n):
         d = os.path.join(root, f"c{k}")
         os.makedirs(d)
-        dirs = {"contracts": rnd.random() < 0.8, "alt": True, "cli": True}
+        # the configured directory has upper-case letters in its name, and a sibling differs from it in letter case only
+        altname = rnd.choice(["alt", "Alt", "AltSrc"])
+        dirs = {"contracts": rnd.random() < 0.8, altname: True, "cli": True}
+        if altname != altname.lower():
+            dirs[altname.lower()] = True
         for name, present in dirs.items():
             if present:
                 sub = os.path.join(d, name)
@@ -169,7 +205,7 @@ def c14_cases(ctx, binary, root, rnd, n):
                     sel[cat] = full + [bad] if rnd.random() < 0.7 else [bad] + full
                 else:
                     sel[cat].insert(rnd.randrange(len(sel[cat]) + 1), bad)
-            tp = os.path.join(d, "alt") if toml_path_key else None
+            tp = os.path.join(d, altname) if toml_path_key else None
             lines = []
             if tp is not None:
                 lines.append(f"path = '{tp}'")
@@ -189,7 +225,7 @@ def c14_cases(ctx, binary, root, rnd, n):
             decoy = rnd.choice(["Solstat.toml", "solstat.toml", ".solstat.toml", "contracts/Solstat.toml"])
             if decoy.startswith("contracts/") and not dirs["contracts"]:
                 decoy = "Solstat.toml"
-            open(os.path.join(d, decoy), "w").write("path = '%s'\noptimizations = [\"sstore\"]\nvulnerabilities = []\nqa = []\n" % os.path.join(d, "alt"))
+            open(os.path.join(d, decoy), "w").write("path = '%s'\noptimizations = [\"sstore\"]\nvulnerabilities = []\nqa = []\n" % os.path.join(d, altname))
         code, rep, err = run_solstat(binary, d, args)
         req = "\t".join(["RESOLVE", hexs(cli_path), toml_enc, "1" if dirs["contracts"] else "0", str(code), rep.hex() if rep is not None else "-"])
         # oracle, in the property's words (independent of the Lean model)
@@ -204,7 +240,7 @@ def c14_cases(ctx, binary, root, rnd, n):
                 verdict, why = "VIOL", f"valid configuration but exit status {code}: {err[-200:]}"
             else:
                 text = rep.decode("utf-8", "replace")
-                want_dir = "cli" if use_cli else ("alt" if use_toml and toml_path_key else "contracts")
+                want_dir = "cli" if use_cli else (altname if use_toml and toml_path_key else "contracts")
                 import re as _re
                 files = set(_re.findall(r"^- ([A-Za-z_]+)_(?:A|Old)\.sol:\d+$", text, _re.M))
                 if files and files != {want_dir}:
